@@ -35,7 +35,7 @@ func (t *Term) Key() string {
 		sb.WriteString(":")
 		sb.WriteString(t.Sym)
 	}
-	if len(t.Args) > 0 {
+	if len(t.Args) > 0 && t.Op != "phi" { // φ terms are identified by their name: their operands may be cyclic
 		sb.WriteString("(")
 		for i, a := range t.Args {
 			if i > 0 {
@@ -329,19 +329,8 @@ func (c *TermCtx) build(v ssa.Value) *Term {
 				}
 			}
 		}
-		var args []*Term
-		same := true
-		for _, e := range v.Edges {
-			a := c.Of(e)
-			if len(args) > 0 && a.Key() != args[0].Key() {
-				same = false
-			}
-			args = append(args, a)
-		}
-		if same && len(args) > 0 {
-			return args[0]
-		}
-		return mk("phi", v.Name()+"@"+funcName(v.Parent()), v, args...)
+		// not on a path: a φ is an opaque, named value; its operands are expanded on demand (PhiEdges)
+		return mk("phi", v.Name()+"@"+funcName(v.Parent()), v)
 	case *ssa.Call:
 		return c.call(v)
 	case *ssa.MakeSlice:
@@ -710,4 +699,17 @@ func outerParamOf(fv *ssa.FreeVar) *Term {
 // isRecv: the receiver of the method under analysis (also when seen from inside one of its closures).
 func (t *Term) isRecv() bool {
 	return t != nil && (t.Op == "param" || t.Op == "oparam") && t.Sym == "0"
+}
+
+// PhiEdges: the terms of the operands of a φ term (one level).
+func (c *TermCtx) PhiEdges(t *Term) []*Term {
+	phi, ok := t.V.(*ssa.Phi)
+	if !ok || t.Op != "phi" {
+		return nil
+	}
+	var out []*Term
+	for _, e := range phi.Edges {
+		out = append(out, c.Of(e))
+	}
+	return out
 }
